@@ -11,22 +11,7 @@ def run(ctx):
     progs = tc.mc_replays(ctx, kinds, 4, workers=14, maxref=3 if not th else 4, salts=(1,) if not th else (1, 2))
     rnd = tc.random_programs(rng, kinds, 3000 if th else 500, [2, 3, 5, 8, 13, 40, 200 if th else 60], maxcalls=5)
     far = tc.far_programs(rng, th)
-    # a refused (oversize) add in the middle of a history: the handles returned afterwards must not be shifted by it
-    cache = {"op": "add_cache", "a": {}, "calls": []}
-    proc = lambda parent, k: {"op": "add_processor", "a": {"parent": parent, "id": [k, 0, 0, 0]}, "calls": [{"o": "add_cache", "a": {"ref": 1}}] * k}
-    hdr = {"oem_id": [1, 2, 3, 4, 5, 6], "oem_table_id": [1, 2, 3, 4, 5, 6, 7, 8], "oem_rev": [9, 0, 0, 0], "timebase": [0] * 8}
-    far.append({"fam": "table", "kind": "PPTT", "ctor": hdr, "ops": [cache, proc(0, 2), proc(2, 59), cache, proc(2, 3), proc(5, 100), cache, proc(5, 1)]})
-    isa = lambda n: {"op": "add_isa_string", "a": {"str": [114] * n}, "calls": []}
-    cmo = {"op": "add_cmo", "a": {"cbom": [6], "cbop": [6], "cboz": [6]}, "calls": []}
-    hart = lambda i, c, k: {"op": "add_hart_info", "a": {"uid": [1, 0, 0, 0], "isa": i}, "calls": [{"o": "with_cmo", "a": {"ref": c}}] * k}
-    far.append({"fam": "table", "kind": "RHCT", "ctor": hdr, "full_limit": 1 << 22,
-                "ops": [isa(5), cmo, isa(65530), isa(6), hart(1, 2, 16380), cmo, hart(4, 6, 2), isa(7), hart(8, 2, 1)]})
-    wire = {"num": [1, 0, 0, 0], "level": True, "high": False, "aplic": [2, 0]}
-    io = lambda n: {"op": "add_iommu", "a": {"id": [n % 256, 0], "wires": [wire] * n}, "calls": []}
-    mp = lambda r: {"src": [1, 0, 0, 0], "dst": [2, 0, 0, 0], "n": [3, 0, 0, 0], "iommu": r, "ats": True, "pri": False, "rciep": False}
-    rc = lambda r, m: {"op": "add_pcie_root_complex", "a": {"id": [2, 0], "seg": [0, 0], "ats": False, "pri": True, "maps": [mp(r)] * m}, "calls": []}
-    far.append({"fam": "table", "kind": "RIMT", "ctor": hdr, "full_limit": 1 << 22,
-                "ops": [io(2), io(8188), io(3), rc(3, 2), rc(1, 3276), io(1), rc(6, 1)]})
+    far += tc.refusal_programs(rng)       # refused adds in the middle of a history must not shift later handles
     programs = progs + rnd + far
     ctx.samples = tc.sample(progs, 2) + tc.sample(rnd, 1)
     ctx.distinct = tc.distinct(programs)
